@@ -200,6 +200,8 @@ pub fn derive_plans(rng: &mut Rng, tier: Tier, count: usize) -> Vec<Plan> {
                 _ => crate::sim_entropy::REF_CLOCK_STEP_NS,
             };
             plan.pid = rng.range(2, 4_000_000) as u32;
+            // memory statistics: tiny, moderate, over typical budgets (64 MiB, 1 GiB, 16 GiB)
+            plan.rss_kib = *rng.pick(&[64u64, 8192, 50_000, 100_000, 2_000_000, 20_000_000]);
         }
         if enable_stall && rng.chance(1, 2) {
             // a slow thread: the first created thread is gram's own worker (stall it rarely and
